@@ -287,7 +287,7 @@ func TestAllSplits(t *testing.T) {
 	}
 	defer env.Close()
 	c := stdgen.LoadCorpus(ev.RepoRoot())
-	limit := 400
+	limit := 200
 	if ev.Thorough() {
 		limit = 6000
 	}
